@@ -34,7 +34,17 @@ where
       let subscription = Arc::clone(&self.subscription);
       self.subject.set_on_unsubscribe(move |count| {
         if count == 0 {
-          if let Some(sbsc) = &*subscription.read().unwrap() {
+          // take a live connection out: the next first subscriber must connect
+          // again (a source that has terminated is never subscribed again)
+          let sbsc = {
+            let mut slot = subscription.write().unwrap();
+            if slot.as_ref().map_or(false, |s| s.is_subscribed()) {
+              slot.take()
+            } else {
+              None
+            }
+          };
+          if let Some(sbsc) = sbsc {
             sbsc.unsubscribe();
           }
         }
